@@ -269,9 +269,9 @@ def run(F, rep):
         for c in g_.walk():
             if c.get('k') == 'Call' and c.get('fn') == 'convertToString' and not c.get('mc') and 'double' in (c.get('ck') or ''):
                 n_d1 += 1
+                from engines import value_of as _vo3
                 a1 = nth_arg(c, 1)
-                while a1 is not None and a1.get('k') in ('Paren', 'Cast') and len(a1.get('c', [])) == 1:
-                    a1 = a1['c'][0]
+                a1 = _vo3(g_, a1) if a1 is not None else None
                 full = a1 is None or a1.get('k') == 'DefArg' or (a1.get('k') == 'Bool' and a1.get('v'))
                 rep.check(full, 'C03.N1', '%s|%s' % (g_.short.split('::')[-1], render(c)[:50]), g_.where(c), '%s writes `%s` with the stream default of 6 significant digits (fullPrecision = %s)' % (g_.short, render(nth_arg(c, 0))[:40], render(a1) if a1 is not None else '?'), 'full precision')
     if n_d1 < 5:
